@@ -362,6 +362,14 @@ func propertyFailsL(prop, op, res, lean string) (why string) {
 				}
 			}
 		}
+		if (base == "udec" || base == "udecp") && lean != "" && hasPrefix(lean, "ok") != isOK && !hasPrefix(lean, "panic") && !hasPrefix(res, "blowup") {
+			// which frames are malformed is fixed by the decoding rules the model formalises (C06.malformed_frame_fails is
+			// proved about them, and the unchanged decoders follow them on every compared line)
+			if isOK {
+				return "a datagram with a frame that the decoding rules reject as malformed is accepted"
+			}
+			return "a datagram of frames that the decoding rules accept is rejected"
+		}
 		if (base == "udec" || base == "udecp") && res == "err" {
 			// frames of unregistered packet types have no body rules: a well-framed datagram of them must decode
 			b := NewR(args).H()
@@ -419,9 +427,15 @@ func propertyFailsL(prop, op, res, lean string) (why string) {
 			b := NewR(args).H()
 			if framesOK(b) {
 				ps := getPackets(NewR(res[3:]))
+				if n := countFrames(b); n != len(ps) {
+					return fmt.Sprintf("a datagram of %d frames comes back as %d packets", n, len(ps))
+				}
 				i := 0
 				for off := 0; off < len(b) && i < len(ps); i++ {
 					l := (int(b[off+2])<<8 | int(b[off+3]) + 1) * 4
+					if k := dispatchKind(b[off:]); k != "RAW" && k != kindName(ps[i]) {
+						return fmt.Sprintf("frame %d carries the registered type/FMT of %s but is returned as %s", i, k, kindName(ps[i]))
+					}
 					if dispatchKind(b[off:]) == "RAW" {
 						rp, ok := ps[i].(*rtcp.RawPacket)
 						if !ok {
@@ -483,6 +497,16 @@ func propertyFailsL(prop, op, res, lean string) (why string) {
 		if base == "enc" && isOK {
 			if why := limitExceeded(kind, args); why != "" {
 				return "Marshal accepted a value beyond a wire limit: " + why
+			}
+			// the length field represents the emitted size (TWCC and raw packets carry the caller's header)
+			if isPacketKind(kind) && kind != "TWCC" && kind != "RAW" && kind != "XR" {
+				if f := fieldsOf(res); len(f) >= 2 {
+					if b := unhexOr(f[1]); len(b) >= 4 && len(b)%4 == 0 && len(b) <= 262144 {
+						if lf := int(b[2])<<8 | int(b[3]); lf != len(b)/4-1 {
+							return fmt.Sprintf("the length field says %d words, %d octets were emitted: the length does not represent the content", lf, len(b))
+						}
+					}
+				}
 			}
 		}
 		if base == "enc" && res == "err" {
@@ -645,9 +669,24 @@ func propertyFailsL(prop, op, res, lean string) (why string) {
 		if base == "dec" && kind == "TWCC" && isOK {
 			return twccOracle(NewR(args).H(), res[3:])
 		}
-		if base == "udec" && hasPrefix(res, "ok 1 TWCC ") { // the same packet through the datagram decoder
-			if b := NewR(args).H(); countFrames(b) == 1 {
-				return twccOracle(b, res[len("ok 1 TWCC "):])
+		if base == "decp" && kind == "TWCC" {
+			if exact := execOp("dec.TWCC " + args); exact != res {
+				return "the decoder's result depends on memory behind the end of its input: " + clip(res, 30) + " vs " + clip(exact, 30)
+			}
+		}
+		if base == "udec" && isOK && len(res) > 3 { // the same packets through the datagram decoder, each judged on its own frame
+			if b := NewR(args).H(); framesOK(b) {
+				ps := getPackets(NewR(res[3:]))
+				i := 0
+				for off := 0; off < len(b) && i < len(ps); i++ {
+					l := (int(b[off+2])<<8 | int(b[off+3]) + 1) * 4
+					if t, ok := ps[i].(*rtcp.TransportLayerCC); ok && dispatchKind(b[off:]) == "TWCC" {
+						if w := twccOracle(b[off:off+l], bodyTokens(t)); w != "" {
+							return fmt.Sprintf("frame %d: %s", i, w)
+						}
+					}
+					off += l
+				}
 			}
 		}
 	case "C14":
@@ -691,6 +730,15 @@ func propertyFailsL(prop, op, res, lean string) (why string) {
 		}
 		if base == "relay" && strings.HasSuffix(res, "concat-differs") {
 			return "Marshal(list) is not the concatenation of the members' encodings"
+		}
+		if base == "enc" && kind == "XR" && isOK {
+			// the block headers are outputs of Marshal: what an earlier Marshal or Unmarshal left in them must not show
+			if x, ok := getBody(NewR(args), "XR").(*rtcp.ExtendedReport); ok {
+				fresh := fieldsOf(execOp("enc.XR " + bodyTokens(xrFreshHeaders(x))))
+				if got := fieldsOf(res); len(fresh) >= 2 && len(got) >= 2 && fresh[0] == "ok" && fresh[1] != got[1] {
+					return "ExtendedReport.Marshal gives other bytes for a value whose block headers were filled in by an earlier call than for the same value built fresh"
+				}
+			}
 		}
 		if hasPrefix(res, "panic") {
 			return "panic during history"
@@ -816,4 +864,13 @@ func rembtoOracle(args, res string) string {
 		return "MarshalTo rejects a well-formed value although the buffer is large enough"
 	}
 	return ""
+}
+
+func isPacketKind(kind string) bool {
+	for _, k := range allKinds {
+		if k == kind {
+			return true
+		}
+	}
+	return false
 }
